@@ -121,6 +121,23 @@ def run_minimize(cj, basis, params, cutmode, cutseed, validate):
         return [c for c in found if r.random() < 0.65]
     mw.CUT_HOOK = hook if cutmode in ('subset', 'shuffle') else None
     mw.CUT_FILTER = cut_filter if cutmode == 'subset' else None
+    # record every splice the driver performs (monkeypatch in this process only; no source hook)
+    from cirbo.core.circuit import Circuit
+    orig_replace = Circuit.replace_subcircuit
+    steps = []
+
+    def recording_replace(self, subcircuit, inputs_mapping, outputs_mapping):
+        rec = {'before': circ_to_json(self), 'sub': circ_to_json(subcircuit),
+               'im': [list(p) for p in inputs_mapping.items()], 'om': [list(p) for p in outputs_mapping.items()]}
+        steps.append(rec)
+        try:
+            out = orig_replace(self, subcircuit, inputs_mapping, outputs_mapping)
+        except Exception as e:  # noqa: BLE001
+            rec['err'] = err_name(e)
+            raise
+        rec['after'] = circ_to_json(self)
+        return out
+    Circuit.replace_subcircuit = recording_replace
     try:
         c = circ_from_json(cj)
         before = circ_to_json(c)
@@ -128,12 +145,66 @@ def run_minimize(cj, basis, params, cutmode, cutseed, validate):
         if kw.get('solver_time_limit_sec') == 0:
             kw['solver_time_limit_sec'] = None
         res = minimize_subcircuits(c, basis, enable_validation=validate, **kw)
-        return {'ok': circ_to_json(res), 'arg_after': circ_to_json(c), 'arg_before': before}
+        return {'ok': circ_to_json(res), 'arg_after': circ_to_json(c), 'arg_before': before, 'steps': steps}
     except Exception as e:  # noqa: BLE001
-        return {'err': err_name(e)}
+        return {'err': err_name(e), 'steps': steps}
     finally:
+        Circuit.replace_subcircuit = orig_replace
         mw.CUT_HOOK = None
         mw.CUT_FILTER = None
+
+
+def audit_steps(ctx, cj, r, inp):
+    """the tie of c04_improvement_steps_preserve_function to the driver: every splice the driver performed is a
+    replace_subcircuit (i) whose replacement agrees with the cone on every input assignment of the circuit it is applied
+    to, with no cone output among the circuit inputs (the theorem's hypotheses), (ii) that the Lean model of
+    replace_subcircuit reproduces, and (iii) the circuits form a chain from the argument to the result"""
+    from props import gencommon as G
+    steps = r.get('steps') or []
+    cur = cj
+    model_reqs = []
+    for st in steps:
+        if canon(st['before']) != canon(cur):
+            # between two splices the driver may merge signals with equal patterns in place (its other kind of step,
+            # not covered by the theorem): the circuit it splices next must still compute the same function
+            ctx.count('in_place_merge_between_splices')
+            if st['before']['inputs'] != cur['inputs'] or tts(st['before']) != tts(cur):
+                ctx.mismatch('min.steps.chain', inp, 'function changed between two splices', None)
+                return
+        if 'after' not in st:
+            break
+        ctx.count('splice')
+        before = st['before']
+        tt = G.gates_tt(before)
+        rows = 1 << len(before['inputs'])
+        sub = circ_from_json(st['sub'])
+        sub_in = list(sub.inputs)
+        im = {k: v for k, v in st['im']}
+        inv = {v: k for k, v in im.items()}
+        ok = all(k not in before['inputs'] for k, _ in st['om']) and set(sub_in) <= set(inv)
+        if ok:
+            for row in range(rows):
+                vals = sub.evaluate_full_circuit({i: tt[inv[i]][row] for i in sub_in}) if hasattr(sub, 'evaluate_full_circuit') else None
+                for k, o in st['om']:
+                    if bool(vals[o]) != bool(tt[k][row]):
+                        ok = False
+                        break
+                if not ok:
+                    break
+        if not ok:
+            ctx.mismatch('min.steps.hypotheses', {'step': {k: st[k] for k in ('sub', 'im', 'om')}, 'before': before},
+                         'replacement does not agree with the cone / cone output is a circuit input', None)
+        model_reqs.append({'op': 'mutate', 'c': before, 'steps': [['replace_subcircuit', st['sub'], st['im'], st['om']]]})
+        cur = st['after']
+    if 'ok' in r and canon(r['ok']) != canon(cur):
+        ctx.count('in_place_merge_after_last_splice')
+    if model_reqs:
+        from props.mutcommon import compare_mutate
+        compare_mutate(ctx, 'splice', model_reqs)
+
+
+def canon(j):
+    return {'gates': sorted((g[0], g[1], tuple(g[2])) for g in j['gates']), 'inputs': list(j['inputs']), 'outputs': list(j['outputs'])}
 
 
 def tts(cj):
@@ -200,6 +271,7 @@ def check_case(ctx, cj, basis, params, cutmode, cutseed):
         ctx.violation('min.size.dead_logic' if has_dead_logic(cj) else 'min.size', f'{nontrivial(cj)} non-trivial gates -> {nontrivial(res)}', input=inp)
         return
     ctx.count('improved' if nontrivial(res) < nontrivial(cj) else 'same_size')
+    audit_steps(ctx, cj, r, inp)
     rv = run_minimize(cj, basis, params, cutmode, cutseed, validate=True)
     if rv.get('err') == 'FailedValidationError':
         ctx.violation('min.validation', 'enable_validation=True reported a failed validation', input=inp)
